@@ -338,6 +338,14 @@ static int append_entry(Rng& r, Plan& pl, int kind, int task, int slot0, const s
         Op o = mkop("f_exec", task); o.o = slot0; o.d = {delta}; o.i = {(int64_t)r.below(2), (int64_t)r.below(2), 0}; push(o);
       }
       if (r.chance(0.2)) { Op o = mkop("f_exec", task); o.o = slot0; o.d = {-delta * 0.5}; o.i = {(int64_t)r.below(2), 0, 0}; push(o); }
+      if (r.chance(0.12)) {                      // a copy of the object (copy construction; sometimes assigned over once more) is used and destroyed like any other
+        Op k = mkop("copy", task); k.o = slot0; k.o2 = slot0 + 1; k.i = {0}; push(k);
+        if (r.chance(0.3)) { Op k2 = mkop("copy", task); k2.o = slot0; k2.o2 = slot0 + 1; k2.i = {1}; push(k2); }
+        Op o = mkop("f_exec", task); o.o = slot0 + 1; o.d = {delta}; o.i = {(int64_t)r.below(2), (int64_t)r.below(2), 0}; push(o);
+        if (r.chance(0.5)) { Op o2 = mkop("f_exec", task); o2.o = slot0; o2.d = {delta}; o2.i = {(int64_t)r.below(2), 0, 0}; push(o2); }
+        if (r.chance(0.7)) { Op d = mkop("del", task); d.o = r.chance(0.5) ? slot0 : slot0 + 1; push(d); }
+        return 2;
+      }
       if (r.chance(0.7)) { Op d = mkop("del", task); d.o = slot0; push(d); }
       return 1; }
     case 6: {  // InflatePaths free functions
@@ -383,6 +391,13 @@ static int append_entry(Rng& r, Plan& pl, int kind, int task, int slot0, const s
       Op n = mkop(w == 2 ? "new_rc" : "new_rcl", task); n.o = slot0; n.i = {l, t, rr, bb}; push(n);
       int ne = (int)r.range(1, 3);
       for (int i = 0; i < ne; ++i) { Op o = mkop("r_exec", task); o.o = slot0; setP(o, 0, crossing_paths()); push(o); }
+      if (r.chance(0.12)) {
+        Op k = mkop("copy", task); k.o = slot0; k.o2 = slot0 + 1; k.i = {0}; push(k);
+        Op o = mkop("r_exec", task); o.o = slot0 + 1; setP(o, 0, crossing_paths()); push(o);
+        if (r.chance(0.5)) { Op o2 = mkop("r_exec", task); o2.o = slot0; setP(o2, 0, crossing_paths()); push(o2); }
+        if (r.chance(0.7)) { Op d = mkop("del", task); d.o = r.chance(0.5) ? slot0 : slot0 + 1; push(d); }
+        return 2;
+      }
       if (r.chance(0.7)) { Op d = mkop("del", task); d.o = slot0; push(d); }
       return 1; }
     case 8: {  // Minkowski
@@ -625,6 +640,22 @@ static Plan gen_c12_base(uint64_t seed, uint64_t run, const std::string& cfg) {
     // clipper histories: one or two Clipper64 (or a ClipperD), up to two containers
     bool useD = mode == 4 && g.chance(0.6);
     int prec = (int)g.range(-2, 4);
+    if (g.chance(0.08)) {
+      // the very same Execute three to five times on one clipper (polytree output mostly), on input whose result has splits,
+      // touching outlines and holes: what an execution leaves behind must not reach the one after the next either
+      Op n = mkop(useD ? "new_cd" : "new_c64"); n.o = 0; if (useD) n.i = {prec}; pl.ops.push_back(n);
+      auto splitty = [&]() { PPaths pp; int np = (int)g.range(1, 3); static const int sf[] = {7, 7, 6, 6, 0, 2};
+        for (int i = 0; i < np; ++i) { PPath q = gen_base(g, f, sf[g.below(6)], 14); if (g.chance(0.4)) decorate(g, q, -mag, mag); add_z(g, q, z); pp.push_back(q); }
+        if (g.chance(0.3)) { PPaths gr = grid(); pp.insert(pp.end(), gr.begin(), gr.end()); }
+        return pp; };
+      int na = (int)g.range(1, 3);
+      for (int i = 0; i < na; ++i) { Op a = mkop("c_add"); a.o = 0; a.i = {(int64_t)(i == 0 ? 0 : 2 * g.below(2))}; if (useD) setD(a, 0, to_d(splitty(), std::pow(10.0, std::max(0, prec)), g, true)); else setP(a, 0, splitty()); pl.ops.push_back(a); }
+      if (g.chance(0.5)) { Op o = mkop("pc"); o.o = 0; o.i = {(int64_t)g.below(2)}; pl.ops.push_back(o); }
+      Op e = mkop("c_exec"); e.o = 0; e.i = {(int64_t)g.range(1, 4), (int64_t)g.below(4), (int64_t)(g.chance(0.8) ? 2 + g.below(2) : g.below(2)), (int64_t)g.below(2)};
+      int reps = (int)g.range(3, 5);
+      for (int i = 0; i < reps; ++i) { pl.ops.push_back(e); if (g.chance(0.15)) { Op x = e; x.i[0] = g.range(1, 4); x.i[2] = g.below(4); pl.ops.push_back(x); } }
+      return pl;
+    }
     if (!useD && g.chance(0.07)) {
       // container life cycle: fill, use, Clear(), refill with a rearranged copy of the same paths (same number of local
       // minima, another insertion order and other positions), use again - by the same or by another clipper that holds
@@ -690,7 +721,7 @@ static Plan gen_c12_base(uint64_t seed, uint64_t run, const std::string& cfg) {
     double lastD = 0; bool haveD = false;                      // repeated Executes with the very same delta are common in real use
     auto D = [&]() { if (haveD && g.chance(0.55)) return lastD; double d = g.chance(0.6) ? dl[g.below(6)] : (double)ext * (0.05 + g.unit()); lastD = g.chance(0.4) ? -d : d; haveD = true; return lastD; };
     Op n = mkop("new_off"); n.o = 0; n.d = {g.chance(0.6) ? 2.0 : 1.0 + g.unit() * 4, g.chance(0.6) ? 0.0 : 0.25}; n.i = {(int64_t)g.below(2), (int64_t)g.below(2)}; pl.ops.push_back(n);
-    int len = (int)g.range(3, 12); int nexec = 0;
+    int len = (int)g.range(3, 12); int nexec = 0; bool have_copy = false;
     uint64_t sk = run / 8; int sklen = 1 + (int)(sk % 4); sk /= 4;
     for (int s = 0; s < len; ++s) {
       int kind = s < sklen ? (int)(sk % 10) : (int)g.below(12); if (s < sklen) sk /= 10;
@@ -706,7 +737,10 @@ static Plan gen_c12_base(uint64_t seed, uint64_t run, const std::string& cfg) {
         case 8: case 11: o = mkop("f_exec"); o.o = 0; o.d = {D()}; o.i = {0, (int64_t)g.below(2), 0}; ++nexec; break;
         default: o = mkop("f_exec"); o.o = 0; o.d = {D()}; o.i = {1, (int64_t)g.below(2), 0}; ++nexec; break;
       }
+      if (have_copy && g.chance(0.4)) o.o = 1;                 // after the copy, operations go to either object
       pl.ops.push_back(o);
+      if (!have_copy && s >= 1 && g.chance(0.06)) { Op k = mkop("copy"); k.o = 0; k.o2 = 1; k.i = {0}; pl.ops.push_back(k); have_copy = true; }
+      else if (have_copy && g.chance(0.05)) { Op k = mkop("copy"); k.o = (int)g.below(2); k.o2 = 1 - k.o; k.i = {1}; pl.ops.push_back(k); }
     }
     if (nexec == 0) { Op o = mkop("f_exec"); o.o = 0; o.d = {D()}; o.i = {(int64_t)g.below(2), 0, 0}; pl.ops.push_back(o); }
     // keep the number of arc vertices executable (domain restriction, DESIGN 3.1.1): with every path of the history added and
@@ -740,7 +774,7 @@ static Plan gen_c12_base(uint64_t seed, uint64_t run, const std::string& cfg) {
     int64_t l = std::min(a.x, b.x), rr = std::max(a.x, b.x), t = std::min(a.y, b.y), bb = std::max(a.y, b.y);
     if (rr == l) rr = l + 1 + (int64_t)g.below(8); if (bb == t) bb = t + 1 + (int64_t)g.below(8);
     Op n = mkop(g.chance(0.6) ? "new_rc" : "new_rcl"); n.o = 0; n.i = {l, t, rr, bb}; pl.ops.push_back(n);
-    int ne = (int)g.range(2, 5);
+    int ne = (int)g.range(2, 5); bool rect_copy = false;
     for (int i = 0; i < ne; ++i) {
       Op o = mkop("r_exec"); o.o = 0; PPaths pp = gen_paths(g, mag, 5, maxpts, z, &f);
       int extra = (int)g.below(3);
@@ -755,7 +789,9 @@ static Plan gen_c12_base(uint64_t seed, uint64_t run, const std::string& cfg) {
         }
         add_z(g, s, z); pp.insert(pp.begin() + (long)g.below(pp.size() + 1), s);
       }
+      if (rect_copy && g.chance(0.5)) o.o = 1;
       setP(o, 0, pp); pl.ops.push_back(o);
+      if (!rect_copy && g.chance(0.1)) { Op k = mkop("copy"); k.o = 0; k.o2 = 1; k.i = {0}; pl.ops.push_back(k); rect_copy = true; }
     }
   }
   return pl;
@@ -823,6 +859,37 @@ Plan gen_c14(uint64_t seed, uint64_t run, const std::string& cfg) {
       slot += append_entry(g, pl, kind, t, slot, huge ? "A62" : "A", z, big && bigpts > 120 ? 2 : 3, big ? bigpts : 12, shared);
       if (slot > 12) break;
     }
+  }
+  // hand-over: objects that the set-up thread creates and fills, and that exactly one task then executes, clears or destroys
+  // (the usual way of feeding a thread pool; whatever the library keeps per thread must not care which thread built an object)
+  if (g.chance(0.3)) {
+    int nh = (int)g.range(1, std::min(3, nt)); std::vector<Op> setup;
+    int64_t mag = (int64_t)1 << (int)g.range(4, 20); Frame f = make_frame(g, mag);
+    for (int i = 0; i < nh; ++i) {
+      int slot = 101 + i; int w = (int)g.below(4);
+      if (w < 2) {
+        Op n = mkop(w == 0 ? "new_c64" : "new_cd", -1); n.o = slot; if (w == 1) n.i = {(int64_t)g.range(-2, 4)}; setup.push_back(n);
+        int na = (int)g.range(1, 3);
+        for (int k = 0; k < na; ++k) { Op a = mkop("c_add", -1); a.o = slot; a.i = {(int64_t)(k == 0 ? 0 : g.below(3))};
+          if (w == 0) setP(a, 0, gen_paths(g, mag, 3, g.chance(0.1) ? 200 : 12, z, &f)); else setD(a, 0, to_d(gen_paths(g, mag, 3, 12, z, &f), std::pow(10.0, (double)std::max<int64_t>(0, n.i[0])), g, true));
+          setup.push_back(a); }
+        if (shared >= 0 && g.chance(0.4)) { Op u = mkop("c_reuse", -1); u.o = slot; u.o2 = shared; setup.push_back(u); }
+        for (int k = 0, ne = (int)g.range(1, 2); k < ne; ++k) { Op e = mkop("c_exec", i); e.o = slot; e.i = {(int64_t)g.range(1, 4), (int64_t)g.below(4), (int64_t)g.below(4), (int64_t)g.below(2)}; pl.ops.push_back(e); }
+      } else if (w == 2) {
+        Op n = mkop("new_off", -1); n.o = slot; n.d = {2.0, 0.0}; n.i = {0, 0}; setup.push_back(n);
+        Op a = mkop("f_addpaths", -1); a.o = slot; a.i = {(int64_t)g.below(4), (int64_t)g.below(5)}; PPaths pp = gen_paths(g, mag, 3, 12, z, &f); setP(a, 0, pp); setup.push_back(a);
+        double delta, miter, arc; pick_offset_params(g, extent_of(pp), count_pts(pp), delta, miter, arc, mag, long_path_spacing(pp));
+        Op e = mkop("f_exec", i); e.o = slot; e.d = {delta}; e.i = {(int64_t)g.below(2), (int64_t)g.below(2), 0}; pl.ops.push_back(e);
+      } else {
+        PPt a = rnd_pt(g, f), b = rnd_pt(g, f); int64_t l = std::min(a.x, b.x), rr = std::max(a.x, b.x), t = std::min(a.y, b.y), bb = std::max(a.y, b.y); if (rr == l) ++rr; if (bb == t) ++bb;
+        Op n = mkop(g.chance(0.5) ? "new_rc" : "new_rcl", -1); n.o = slot; n.i = {l, t, rr, bb}; setup.push_back(n);
+        Op e = mkop("r_exec", i); e.o = slot; setP(e, 0, gen_paths(g, mag, 4, 12, z, &f)); pl.ops.push_back(e);
+      }
+      if (g.chance(0.5)) { Op c = mkop(g.chance(0.5) ? "clear" : "del", i); c.o = slot; pl.ops.push_back(c); }
+    }
+    // the set-up operations go behind the set-up of the shared container and in front of everything a task does
+    size_t at = 0; while (at < pl.ops.size() && pl.ops[at].task == -1) ++at;
+    pl.ops.insert(pl.ops.begin() + (long)at, setup.begin(), setup.end());
   }
   // optional fault: one task gets a throwing allocation failure in one of its ops (resolved modulo the op's count at run time)
   if (fr.chance(0.3)) {
